@@ -103,7 +103,7 @@ func hammer(r *sup.CaseResult, rng *rand.Rand, kind string, g, opsPer int) {
 		}
 	}
 	var appended sync.Map // *uerr → true
-	var nAppended, nKill, nStop, panics int64
+	var nAppended, nKill, nStop, panics, listsRewritten int64
 	var firstPanic atomic.Value
 	start := make(chan struct{})
 	var wg sync.WaitGroup
@@ -165,11 +165,24 @@ func hammer(r *sup.CaseResult, rng *rand.Rand, kind string, g, opsPer int) {
 			<-start
 			for _, op := range p.ops {
 				switch op {
-				case 0, 1:
+				case 0:
 					e := &uerr{id: atomic.AddInt64(&errCtr, 1)}
 					appended.Store(e, true)
 					atomic.AddInt64(&nAppended, 1)
 					s.ctx.AppendError(e)
+				case 1:
+					// a result list with gaps, as a caller collects it from several steps; the list is
+					// the caller's: it must read the same after the call
+					e1 := &uerr{id: atomic.AddInt64(&errCtr, 1)}
+					e2 := &uerr{id: atomic.AddInt64(&errCtr, 1)}
+					appended.Store(e1, true)
+					appended.Store(e2, true)
+					atomic.AddInt64(&nAppended, 2)
+					lst := []error{nil, e1, nil, e2, nil}
+					s.ctx.AppendError(lst...)
+					if lst[0] != nil || lst[1] != error(e1) || lst[2] != nil || lst[3] != error(e2) || lst[4] != nil {
+						atomic.AddInt64(&listsRewritten, 1)
+					}
 				case 2:
 					atomic.AddInt64(&nKill, 1)
 					s.ctx.Kill()
@@ -240,6 +253,9 @@ func hammer(r *sup.CaseResult, rng *rand.Rand, kind string, g, opsPer int) {
 		}
 		return true
 	})
+	if listsRewritten > 0 {
+		r.Violate("caller-list-rewritten", fmt.Sprintf("[%s] AppendError(nil, e1, nil, e2, nil) rewrote the caller's own list in %d calls", kind, listsRewritten), wit)
+	}
 	if missing > 0 || dup > 0 {
 		r.Violate("errors-not-retained", fmt.Sprintf("[%s] %d of %d appended errors are missing from Errors(), %d appear more than once (len(Errors())=%d)", kind, missing, nAppended, dup, len(errs)), wit)
 	}
@@ -690,6 +706,25 @@ func childOfDone(r *sup.CaseResult, rng *rand.Rand, g int, isolated bool) {
 				return
 			}
 			r.AddObs("isolated_children_of_ended_parent_stopped", 1)
+			// the scope of an ended parent is a scope like any other: signalling on it is safe
+			func() {
+				how := (k + int(atomic.LoadInt64(&created))) % 3
+				defer func() {
+					if x := recover(); x != nil {
+						r.Violate("child-of-done-panic", fmt.Sprintf("signalling (%s) on an isolated context created after the parent's %s panicked: %v", []string{"AppendError", "Kill", "Stop"}[how], []string{"Kill", "Stop", "AppendError"}[ender], x), wit)
+					}
+				}()
+				switch how {
+				case 0:
+					ictx.AppendError(&uerr{id: atomic.AddInt64(&errCtr, 1)})
+				case 1:
+					ictx.Kill()
+				default:
+					ictx.Stop()
+				}
+				ictx.Stop()
+				_ = ictx.Err()
+			}()
 		}
 	}
 	// children of the already finished scope are created and closed while other goroutines wait on
